@@ -46,4 +46,11 @@ def run(S):
         'nested expression / pattern / markup conversions are opaque and stand for the source text of their node',
         'layout characters (blanks, commas, semicolons, parentheses, braces) are ignored on both sides: optional separators and redundant grouping are allowed by the property',
     ]
+    # the real printer, the renderer interpreted at representative widths, and the REAL parser on the text that comes out: whole documents, blanks symbolic
+    from . import reparse as _rp, deep as _dp
+    _docs = _rp.TABLE_DOCS + _rp.BLOCK_DOCS + _rp.MISC_DOCS + _dp.DOCS + _dp.PROSE + _dp.CODE_DOCS + _dp.EMBED_DOCS + _rp.corpus_docs(S)
+    if S.tier != 'quick':
+        _docs += _dp.OFF_DOCS
+    _fr, _covr = _rp.explore(S, _docs, tabs=(2,) if S.tier == 'quick' else (2, 4), widths=(0, 40, 1 << 30) if S.tier == 'quick' else (0, 20, 40, 80, 120, 1 << 30), prop='C01')
+    _rp.report(S, 'C01', _fr)
     return S.finish(level='other', explanation=EXPLANATION, trusted=['mirsym encoder', 'typst-syntax contracts (kind tables, accessors, operators)', 'pretty Doc algebra'])
